@@ -24,7 +24,18 @@ def handle (line : String) : String :=
         | _ => none
       match prk? with
       | none => "bad-op"
-      | some prk => showReads (readMany (hmac a prk) (newReader a info) reads)
+      | some prk =>
+        match o.get? "infomut" with
+        | none => showReads (readMany (hmac a prk) (newReader a info) reads)
+        | some im =>
+          match im.splitOn ":" with
+          | [k, h] =>
+            match k.toNat?, ofHex h with
+            | some at, some info' =>
+              if info'.length != info.length then "bad-op"
+              else showReads (readManyMut (hmac a prk) (newReader a info) reads at info')
+            | _, _ => "bad-op"
+          | _ => "bad-op"
     | _, _, _, _ => "bad-op"
   else if o.cmd == "ex" then
     match o.hex? "secret", o.hex? "salt" with
